@@ -203,9 +203,24 @@ def make_object(name, rng):
     feed = {"increasing": rng.uniform(0, 1, size=(4, 2)).astype(np.float32), "unconstrained": rng.uniform(0, 1, size=(4, 3)).astype(np.float32)}
     return lay, feed
   if name == "ParallelCombination":
-    lay = tfl.layers.ParallelCombination([tfl.layers.PWLCalibration([0.0, 1.0], monotonicity=P(rng, "none", "increasing")), tfl.layers.CategoricalCalibration(3)],
-                                         single_output=P(rng, True, False))
-    return lay, np.stack([rng.uniform(0, 1, size=5), rng.randint(0, 3, size=5)], axis=1).astype(np.float32)
+    # 2-4 calibrators of different shapes; sub-layer names are auto-generated, distinct, or one explicit name used for all of
+    # them (names need not be unique inside a ParallelCombination: the round trip must still restore every calibrator)
+    k = int(rng.randint(2, 5))
+    naming = P(rng, "auto", "auto", "distinct", "same")
+    subs, cols = [], []
+    for i in range(k):
+      kw = {} if naming == "auto" else {"name": ("calib_%d" % i) if naming == "distinct" else "calib"}
+      if i == 0 or rng.rand() < .6:
+        kp = sorted(set(np.round(rng.uniform(0, 3, size=int(rng.randint(2, 6))), 2).tolist()))
+        kp = kp if len(kp) >= 2 else [0.0, 1.0]
+        subs.append(tfl.layers.PWLCalibration(kp, monotonicity=P(rng, "none", "increasing"), **kw))
+        cols.append(rng.uniform(0, 3, size=5))
+      else:
+        nb = int(rng.randint(2, 6))
+        subs.append(tfl.layers.CategoricalCalibration(nb, **kw))
+        cols.append(rng.randint(0, nb, size=5))
+    lay = tfl.layers.ParallelCombination(subs, single_output=P(rng, True, False))
+    return lay, np.stack(cols, axis=1).astype(np.float32)
   if name == "FeatureConfig":
     return configs.FeatureConfig("a", is_missing_name=P(rng, None, "a_missing"), default_value=P(rng, None, -1.0), lattice_size=P(rng, 2, 3),
                                  monotonicity=P(rng, "none", "increasing", [(0, 1)]), unimodality=P(rng, "none", "valley"),
